@@ -39,7 +39,7 @@ deriving DecidableEq, Repr, Inhabited
 def blockFails (s : Scheme) (k p : Nat) : Bool :=
   match s with
   | .rs | .rsus => p == 0 || k == 0 || k + p > 256
-  | .raptor => k < 4
+  | .raptor => decide (0 < k ∧ k < 4)
   | _ => false
 
 /-- number of shards `encode` returns for a block -/
@@ -82,7 +82,13 @@ def readWindow (e : Enc) : Nat → EncSt → EncSt
   | fuel+1, st =>
     if st.readEnd || st.win.length ≥ e.w then st else
     match e.ks[st.next]? with
-    | none => { st with readEnd := true }           -- nothing left (empty object / stream EOF)
+    | none =>
+      -- empty object: `read_block` is still called once, with an empty buffer.  No-Code yields a block
+      -- without shard, Reed-Solomon fails (0 source symbols); the `raptorq` and `raptor-code` crates
+      -- return the `p` repair symbols of an empty source block (ESI 0..p-1), which are then sent
+      if (e.scheme == .raptorq || e.scheme == .raptor) && e.ks.isEmpty && st.next == 0 && e.p > 0 then
+        { st with win := st.win ++ [{ sbn := 0, k := 0, rest := List.range e.p }], next := 1, readEnd := true }
+      else { st with readEnd := true }
     | some k =>
       if blockFails e.scheme k e.p then { st with readEnd := true } else
       let blk : WBlk := { sbn := st.next, k := k, rest := List.range (shardsOf e.scheme k e.p) }
@@ -95,40 +101,39 @@ def setRest (win : List WBlk) (i : Nat) (r : List Nat) : List WBlk :=
 
 /-- the emission loop of one transfer; `fuel` bounds the iterations (each iteration emits a
     symbol or removes a drained block).  Out of fuel = `none` (never happens, see `emitFuel`). -/
-def emitLoop (e : Enc) : Nat → EncSt → List Sym → Option (List Sym)
-  | 0, _, _ => none
-  | fuel+1, st, acc =>
+def emitLoop (e : Enc) : Nat → EncSt → Option (List Sym)
+  | 0, _ => none
+  | fuel+1, st =>
     let st := readWindow e (e.w + 1) st
     if st.win.isEmpty then
       if st.sent == 0 then
         -- "Empty file ? Send a pkt containing close object flag" (B regardless of closabled_object)
-        some (acc ++ [{ sbn := 0, esi := 0, close := true }])
-      else some acc
+        some [{ sbn := 0, esi := 0, close := true }]
+      else some []
     else
       let idx := if st.idx ≥ st.win.length then 0 else st.idx
       match st.win[idx]? with
       | none => none
       | some blk =>
         match blk.rest with
-        | [] => emitLoop e fuel { st with win := st.win.eraseIdx idx, idx := idx } acc
+        | [] => emitLoop e fuel { st with win := st.win.eraseIdx idx, idx := idx }
         | esi :: rest =>
           let srcSent := if esi < blk.k then st.srcSent + 1 else st.srcSent
-          let isLastSymbol := rest.isEmpty
-          -- D3: "last packet" = every source symbol sent and THIS block drained
-          let isLastPacket := srcSent ≥ totalSrc e.ks && isLastSymbol
+          let win' := setRest st.win idx rest
+          -- last packet of the transfer (after the D3 repair, /repo 76ef81b): every source symbol
+          -- sent, this block drained and no block of the window still holds a symbol
+          let isLastPacket := decide (srcSent ≥ totalSrc e.ks) && rest.isEmpty && win'.all (·.rest.isEmpty)
           let sym : Sym := { sbn := blk.sbn, esi := esi, close := e.closable && isLastPacket }
-          emitLoop e fuel
-            { st with win := setRest st.win idx rest, idx := idx + 1, srcSent := srcSent,
-                      sent := st.sent + 1 }
-            (acc ++ [sym])
+          (emitLoop e fuel
+            { st with win := win', idx := idx + 1, srcSent := srcSent, sent := st.sent + 1 }).map (sym :: ·)
 
 def emitFuel (e : Enc) : Nat :=
-  (e.ks.map (fun k => shardsOf e.scheme k e.p + 1)).foldl (· + ·) 0 + 2
+  (e.ks.map (fun k => shardsOf e.scheme k e.p + 1)).foldl (· + ·) 0 + e.p + 3
 
 def encInit : EncSt := { next := 0, readEnd := false, win := [], idx := 0, srcSent := 0, sent := 0 }
 
 /-- the `(sbn, esi, B)` sequence of one transfer -/
-def emitTransfer (e : Enc) : Option (List Sym) := emitLoop e (emitFuel e) encInit []
+def emitTransfer (e : Enc) : Option (List Sym) := emitLoop e (emitFuel e) encInit
 
 /-- does the very first `read` hit `debug_assert!(transfer_length == 0)` (blockencoder.rs:81)?
     That is: no block could be created although the object is not empty. -/
@@ -165,16 +170,6 @@ structure Pkt where
   close : Bool
 deriving DecidableEq, Repr, Inhabited
 
-/-- the `c`-th packet a source emits over its whole life: transfer `c / n`, position `c % n` -/
-def nthOfSource (tr trLast : List Sym) (transfers : Nat) (carousel : Bool) (c : Nat) : Option Sym :=
-  let n := tr.length
-  if n = 0 then none else
-  let t := c / n
-  if carousel then tr[c % n]?
-  else if t + 1 < transfers then tr[c % n]?
-  else if t + 1 = transfers then trLast[c % n]?
-  else none
-
 structure SessCfg where
   fdtScheme : Scheme
   fdtP : Nat
@@ -195,51 +190,71 @@ inductive Slot where
   | obj (toi : Nat)
 deriving DecidableEq, Repr
 
-def bump (cs : List (Slot × Nat)) (k : Slot) : Nat × List (Slot × Nat) :=
-  match cs.find? (·.1 == k) with
-  | some (_, c) => (c, cs.map (fun x => if x.1 == k then (x.1, c + 1) else x))
-  | none => (0, (k, 1) :: cs)
-
-/-- per source: the two transfer listings (ordinary, last) -/
-structure SrcTab where
+/-- a source of packets (an object or an FDT instance) during the session: the listing of an
+    ordinary transfer, of the last transfer (close-object permitted), and where it stands -/
+structure Src where
   slot : Slot
   tr : List Sym
   trLast : List Sym
-  transfers : Nat
+  transfers : Nat       -- max_transfer_count
   carousel : Bool
+  t : Nat               -- transfers begun so far
+  rest : List Sym       -- what is left of the current transfer
 
-def mkTab (s : SessCfg) : Option (List SrcTab) :=
+/-- listing of the `t`-th transfer (0-based): `is_last_transfer` = no carousel and t + 1 = max_transfer_count -/
+def Src.listing (s : Src) (t : Nat) : Option (List Sym) :=
+  if s.carousel then some s.tr
+  else if t + 1 < s.transfers then some s.tr
+  else if t + 1 = s.transfers then some s.trLast
+  else none
+
+/-- next packet of a source -/
+def Src.pull (s : Src) : Option (Sym × Src) :=
+  match s.rest with
+  | x :: r => some (x, { s with rest := r })
+  | [] =>
+    match s.listing s.t with
+    | some (x :: r) => some (x, { s with t := s.t + 1, rest := r })
+    | _ => none
+
+def mkSrcs (s : SessCfg) : Option (List Src) :=
   let objs := s.objs.mapM (fun o =>
     match emitTransfer (objEnc s o false), emitTransfer (objEnc s o true) with
-    | some a, some b => some { slot := Slot.obj o.toi, tr := a, trLast := b, transfers := o.transfers, carousel := o.carousel : SrcTab }
+    | some a, some b => some { slot := Slot.obj o.toi, tr := a, trLast := b, transfers := o.transfers, carousel := o.carousel, t := 0, rest := [] : Src }
     | _, _ => none)
   let fdts := s.fdts.mapM (fun f =>
     match emitTransfer (fdtEnc s f) with
-    | some a => some { slot := Slot.fdt f.id, tr := a, trLast := a, transfers := 1, carousel := true : SrcTab }
+    | some a => some { slot := Slot.fdt f.id, tr := a, trLast := a, transfers := 1, carousel := true, t := 0, rest := [] : Src }
     | none => none)
   match objs, fdts with
   | some a, some b => some (a ++ b)
   | _, _ => none
 
+def pullFrom : List Src → Slot → Option (Sym × List Src)
+  | [], _ => none
+  | s :: ss, k =>
+    if s.slot == k then
+      match s.pull with
+      | some (x, s') => some (x, s' :: ss)
+      | none => none
+    else
+      match pullFrom ss k with
+      | some (x, ss') => some (x, s :: ss')
+      | none => none
+
+def mkPkt (k : Slot) (sy : Sym) : Pkt :=
+  match k with
+  | .fdt id => { toi := 0, fdtId := id, sbn := sy.sbn, esi := sy.esi, close := sy.close }
+  | .obj t => { toi := t, fdtId := 0, sbn := sy.sbn, esi := sy.esi, close := sy.close }
+
 /-- merge the sources along the schedule; `none` = the schedule asks a source for more packets
     than it has (the model and the implementation disagree on a source's length) -/
-def buildStream (tab : List SrcTab) : List Slot → List (Slot × Nat) → Option (List Pkt)
-  | [], _ => some []
-  | k :: rest, cs =>
-    let (c, cs') := bump cs k
-    match tab.find? (·.slot == k) with
+def buildStream : List Src → List Slot → Option (List Pkt)
+  | _, [] => some []
+  | srcs, k :: rest =>
+    match pullFrom srcs k with
     | none => none
-    | some t =>
-      match nthOfSource t.tr t.trLast t.transfers t.carousel c with
-      | none => none
-      | some sy =>
-        match buildStream tab rest cs' with
-        | none => none
-        | some ps =>
-          let pk : Pkt := match k with
-            | .fdt id => { toi := 0, fdtId := id, sbn := sy.sbn, esi := sy.esi, close := sy.close }
-            | .obj t => { toi := t, fdtId := 0, sbn := sy.sbn, esi := sy.esi, close := sy.close }
-          some (pk :: ps)
+    | some (sy, srcs') => (buildStream srcs' rest).map (mkPkt k sy :: ·)
 
 /-! ## Channel -/
 
@@ -465,11 +480,6 @@ def stepFdt (dec : (k p : Nat) → List Nat → Bool) (rc : RxCfg) (s : SessCfg)
     | .completed => ({ receiving := others, current := (p.fdtId :: st.current).take 10 }, some f)
     | _ => ({ st with receiving := others }, none)
 
-/-- the receiver parses every datagram first: an EXT_FTI with Z = 0 (empty Raptor / RaptorQ object
-    with in-band FTI) is rejected by `alcraptor(q).rs::get_fti` ("Z is null") -/
-def rejected (o : ObjCfg) : Bool :=
-  o.inbandFti && o.ks.isEmpty && (o.scheme == .raptorq || o.scheme == .raptor)
-
 /-- the event sequence one object sees when the receiver is fed `ps` -/
 def eventsFor (dec : (k p : Nat) → List Nat → Bool) (rc : RxCfg) (s : SessCfg) (o : ObjCfg) : FdtRx → List Pkt → List Ev
   | _, [] => []
@@ -479,7 +489,7 @@ def eventsFor (dec : (k p : Nat) → List Nat → Bool) (rc : RxCfg) (s : SessCf
       match done with
       | some f => Ev.fdt (f.files.contains o.toi) :: eventsFor dec rc s o st' ps
       | none => eventsFor dec rc s o st' ps
-    else if p.toi == o.toi && !rejected o then
+    else if p.toi == o.toi then
       Ev.pkt { sbn := p.sbn, esi := p.esi, close := p.close } :: eventsFor dec rc s o st ps
     else eventsFor dec rc s o st ps
 
@@ -515,7 +525,11 @@ def maxTransferLength (s : Scheme) (e b : Nat) : Nat :=
   let size := e * b * maxSbn s
   if size > lenCap s then lenCap s else size
 
-/-- `Sender::add_object` refuses (`Err`) exactly when ... -/
-def refused (s : Scheme) (e b tl : Nat) : Bool := decide (tl > maxTransferLength s e b)
+/-- `Sender::add_object` (`FileDesc::new`) answers `Err`: transfer length above the scheme's maximum;
+    Reed-Solomon without parity symbol or with more than 256 symbols in a block (/repo 318df3e, d5e6485).
+    `aLarge` = larger block size of the partition of `tl`. -/
+def refused (s : Scheme) (e b p tl aLarge : Nat) : Bool :=
+  decide (tl > maxTransferLength s e b) ||
+  ((s == .rs || s == .rsus) && (p == 0 || decide (aLarge + p > 256)))
 
 end Flute.Session
